@@ -122,6 +122,8 @@ func (t *Tokenizer) Load(r io.Reader, handler TokenHandler) (err error) {
 		if err != nil {
 			return
 		}
+		// Keep the offset of the last newline relative to the next buffer.
+		t.noff -= len(buf) - skip
 		skip = 0
 		if eof {
 			break
